@@ -4,7 +4,7 @@ CONSTANTS
   MCUnits <- UnitsDrop
   MCTags = {"t1", "t2", "t3"}
   MaxTicks = 2
-  MaxOps = 4
+  MaxOps = 3
   DTs = {1000}
   Advs = {0}
   DetRets = {"CONTINUE"}
